@@ -55,7 +55,8 @@ def list_probe(rng):
     """-> (setup exprs, expression text, expected python value or 'ERR', list literals used)"""
     op = rng.choice(['first', 'second', 'last', 'rest', 'length', 'in', 'in2', 'plus', 'plus_elem', 'append', 'append_list', 'map_fn',
                      'map_op', 'fold_op', 'fold_fn', 'zip', 'range', 'max', 'min', 'average', 'sum', 'slice', 'slice1', 'reverse',
-                     'filter', 'partition', 'sort', 'list', 'bracket_slice', 'maxstr', 'fold_list', 'filter_all', 'fold_count', 'fold_init_sym'])
+                     'filter', 'partition', 'sort', 'list', 'bracket_slice', 'maxstr', 'fold_list', 'filter_all', 'fold_count', 'fold_init_sym',
+                     'map_op_sym', 'map_op_list', 'fold_op_list'])
     l = gen_list(rng)
     ints = gen_list(rng, 'int')
     q = "'" + lit(l)
@@ -107,6 +108,21 @@ def list_probe(rng):
             acc = acc * 2 - x
         return f'(fold (fn [acc x] (- (* acc 2) x)) 0 {qi})', acc, [ints]
     # fold and the functions built on it hand every element over as data: symbols (bound or not), strings, nested lists
+    # ... also when the function is an operator given directly
+    if op in ('map_op_sym', 'map_op_list', 'fold_op_list'):
+        l = list(l)
+        for _ in range(rng.randrange(1, 3)):
+            l.insert(rng.randrange(len(l) + 1), Sym(rng.choice(['p', 'q', 'r'])))
+        q = "'" + lit(l)
+    if op == 'map_op_sym':
+        return f"(map symbol? {q})", [isinstance(x, Sym) for x in l], [l]
+    if op == 'map_op_list':
+        return f"(map list {q})", [[x] for x in l], [l]
+    if op == 'fold_op_list':
+        acc = Sym('zz')
+        for x in l:
+            acc = [acc, x]
+        return f"(fold list 'zz {q})", acc, [l]
     if op == 'fold_list':
         return f"(fold (fn [acc x] (+ acc (list x))) '() {q})", list(l), [l]
     if op == 'filter_all':
